@@ -8,15 +8,15 @@ open Rx Rx.Gen.Pairwise
 def absPairwise (g : PairwiseObserver) : St1 := .pairwise g.pair.1 g.pair.2
 
 theorem tie_Pairwise_next (g : PairwiseObserver) (v : Val) :
-    (PairwiseObserver.next g v).map (fun r => (absPairwise r.1, r.2)) = some (St1.onNext (absPairwise g) v) := by
+    (PairwiseObserver.next g v).map (fun r => (absPairwise r.1, r.2)) = some (Rs.lift (St1.onNext (absPairwise g) v)) := by
   rcases g with ⟨⟩ <;> rs_tie [PairwiseObserver.next, absPairwise, St1.onNext]
 
 theorem tie_Pairwise_error (g : PairwiseObserver) (e : Err) :
-    (PairwiseObserver.error g e).map (fun r => r.2) = some (St1.onError' (absPairwise g) e).2 := by
+    (PairwiseObserver.error g e).map (fun r => r.2) = some ((St1.onError' (absPairwise g) e).2.map Rs.Ev.n) := by
   rcases g with ⟨⟩ <;> rs_tie [PairwiseObserver.error, absPairwise, St1.onError']
 
 theorem tie_Pairwise_complete (g : PairwiseObserver) :
-    (PairwiseObserver.complete g).map (fun r => r.2) = some (St1.onComplete' (absPairwise g)).2 := by
+    (PairwiseObserver.complete g).map (fun r => r.2) = some ((St1.onComplete' (absPairwise g)).2.map Rs.Ev.n) := by
   rcases g with ⟨⟩ <;> rs_tie [PairwiseObserver.complete, absPairwise, St1.onComplete']
 
 
